@@ -76,6 +76,15 @@ pub fn run(mut cx: Ctx) -> ! {
                     }
                 }
             }
+            // directory routes under other pattern shapes: `/*`, `/s/*`, and an exact pattern without wildcard (`/s`,
+            // matched only by `/s` itself: what remains after the prefix is the directory's own path)
+            for (route, full, rest) in [("/s", "/s".to_string(), String::new()), ("/s/", "/s/".to_string(), String::new()), ("/*", "/a.txt".to_string(), "a.txt".to_string()), ("/s/*", "/s/a.txt".to_string(), "a.txt".to_string()), ("/*", "/d/".to_string(), "d/".to_string()), ("/s/*", "/s/d".to_string(), "d".to_string()), ("/s/*", "/s/../canary.txt".to_string(), "../canary.txt".to_string()), ("/*", "/../canary.txt".to_string(), "../canary.txt".to_string())] {
+                s.states += 1;
+                s.nontrivial += 1;
+                let want = resolve_dir(&root, &rest, &full);
+                let r = std::panic::catch_unwind(std::panic::AssertUnwindSafe(|| directory_handler(request(&full), st_off.clone(), root_s, route, 0)));
+                judge(&mut s, "directory route (other pattern shapes)", mask, &full, &want, r);
+            }
             // serve_file: the configured file and nothing else, whatever the request path says; and
             // serve_as_file_path configured with a trailing slash
             let h_lit_slash = serve_as_file_path::<()>(root_slash);
